@@ -452,4 +452,75 @@ example :
     (checkAll uniSchema false (checkAllL uniLayering uniSchema true (layeredBad.toPSt uniLayering)).1).2 = [] := by
   decide
 
+/-! ## the empty string is "no value"
+
+  `GetTypeAndValue` returns a nil value both for a missing / nil field and for the one-byte encoding of the
+  EMPTY STRING (`TypeString` followed by nothing), which create and update accept in every nullable field as
+  "no value / no reference" (`len(newValue) > 0` is false: no index entry, no back-reference, no target
+  test).  The checker's entity scans must use the same test: `key == nil` in fkIndex / fkConstraint,
+  `fieldType == TypeNil || len(fieldVal) == 0` in uniqueIndex (fix 6e61536) — NOT `fieldType == TypeNil`
+  alone, under which "" is looked up as the id "" and classified as a dangling reference.  In the model
+  `St.evalB` is that value (`[]` for nil and for ""), `St.evalT` keeps the type; the specification
+  (`scalarImage`, `nullOrEmptyIds`) treats "" like nil, so `check_sound` — for ALL consistent states —
+  covers databases holding "" in indexed / referencing fields of root and child stores. -/
+
+/-- `GetTypeAndValue` of a stored field: (`fieldType == TypeNil`, value) -/
+def goTypeAndValue : FVal → Bool × Option Bytes
+  | .nil => (true, none)
+  | .str v => (false, if v = [] then none else some v)
+
+/-- the code's `key == nil` / `len(value) == 0` is the model's `evalB = []` … -/
+theorem key_nil_iff (s : St) (st : Name) (id : Id) (f : Name) :
+    (goTypeAndValue (s.evalT st id f)).2 = none ↔ s.evalB st id f = [] := by
+  unfold St.evalB
+  cases s.evalT st id f with
+  | nil => simp [goTypeAndValue, FVal.bytes]
+  | str v => by_cases h : v = [] <;> simp [goTypeAndValue, FVal.bytes, h]
+
+/-- … which is weaker than `fieldType == TypeNil`: the empty string has a nil key and a non-nil type -/
+theorem empty_string_key_nil_type_not : (goTypeAndValue (.str [])).2 = none ∧ (goTypeAndValue (.str [])).1 = false := by
+  decide
+
+/-- **fk index: "" is no reference.** Whenever the key is nil — nil OR the empty string — the entity scan of
+    `fkIndex.CheckIntegrity` leaves the state alone and reports nothing for a nullable field (the
+    non-nullable report otherwise): no lookup of the id "", no dangling reference, no rewrite to nil. -/
+theorem fk_index_empty_is_no_reference (st f : Name) (n : Bool) (fkSt fkF : Name) (fix : Bool) (s : St) (id : Id)
+    (h : s.evalB st id f = []) :
+    fkStep2 st f n fkSt fkF fix s id = (s, if n then [] else [⟨st, f, .fkNull id, false⟩]) := by
+  unfold fkStep2; rw [if_pos h]
+
+/-- the same for `fkConstraint.CheckIntegrity` -/
+theorem fk_constraint_empty_is_no_reference (st f : Name) (n : Bool) (linked : Name) (fix : Bool) (s : St) (id : Id)
+    (h : s.evalB st id f = []) :
+    fcStep st f n linked fix s id = (s, if n then [] else [⟨st, f, .fkNull id, false⟩]) := by
+  unfold fcStep; rw [if_pos h]
+
+/-- a healthy database with the EMPTY STRING in every nullable indexed / referencing field — alias, owner
+    (fk index), dep (fk constraint), boss (self fk index) of a thing, tag of its extension data, label of an
+    owner — as create / update leave it: no index entry, no back-reference -/
+def emptyRefs : StD :=
+  { ents :=
+      [ (things,
+          [ ⟨a1, [("name", .str n1), ("alias", .str []), ("owner", .str []), ("home", .str b1), ("dep", .str []),
+                  ("req", .str b1), ("boss", .str [])], [("roles", [])]⟩ ]),
+        (thingsX, [ ⟨a1, [("badge", .str n1), ("tag", .str []), ("sponsor", .str b1)], [("caps", [])]⟩ ]),
+        (owners, [ ⟨b1, [("label", .str [])], [("residents", [a1])]⟩ ]) ]
+    uniq := [ ((things, "name"), [(n1, a1)]), ((thingsX, "badge"), [(n1, a1)]) ]
+    setx := [] }
+
+/-- it is consistent, the check reports nothing, a fix run reports nothing and changes nothing -/
+theorem empty_string_refs_clean :
+    emptyRefs.toSt.WF ∧ Inv uniSchema emptyRefs.toSt ∧ (checkAll uniSchema false emptyRefs.toSt).2 = [] ∧
+    (checkAll uniSchema true emptyRefs.toSt).2 = [] ∧ (checkAll uniSchema true emptyRefs.toSt).1 = emptyRefs.toSt :=
+  ⟨emptyRefs.wf (by decide), by decide, by decide, by decide,
+    fix_noop_on_consistent uniSchema _ (emptyRefs.wf (by decide)) (by decide)⟩
+
+/-- a back-reference that claims a1 although a1's owner is "" is stale — reported and removed -/
+example :
+    (fkIndexCheck things "owner" true owners "things" true
+      ({ emptyRefs with ents :=
+          [ (things, [ ⟨a1, [("name", .str n1), ("owner", .str []), ("home", .str b1), ("req", .str b1)], [("roles", [])]⟩ ]),
+            (owners, [ ⟨b1, [], [("things", [a1]), ("residents", [a1])]⟩ ]) ] } : StD).toSt).2.map (fun r => (r.msg, r.fixed))
+      = [(.fkBackStale b1 a1 [], true)] := by decide
+
 end StorageModel.Properties.C09
